@@ -377,6 +377,16 @@ pub fn run(input: &[u8], scn: &str, rec: &mut Rec) {
                         }
                         *pr.lock().unwrap() = ProbeOut::default();
                     }
+                    if wv_gen::rng::fnv64(input) % 2 == 0 {
+                        // ... and a function that never had an input location takes their place
+                        let _ = guarded(|| {
+                            let mut fb = walrus::FunctionBuilder::new(&mut p.module.types, &[], &[]);
+                            fb.func_body().i32_const(5).drop();
+                            let f = fb.finish(vec![], &mut p.module.funcs);
+                            p.module.exports.add("wv_only_built", f);
+                        });
+                        rec.push_n("emptied.built", 1);
+                    }
                     rec.push_n("emptied.local_funcs", p.module.funcs.iter_local().count() as u64);
                     emit_into(rec, "emptied", &mut p.module);
                     if let Some(pr) = &pr {
@@ -439,9 +449,21 @@ pub fn run(input: &[u8], scn: &str, rec: &mut Rec) {
                                 p2.module.customs.add(np);
                             }
                         }
-                        emit_into(rec, "gc", &mut p2.module);
+                        let gc_out = emit_into(rec, "gc", &mut p2.module);
                         if let Some(pr) = &pr {
                             log_probe(rec, "gc", pr);
+                        }
+                        if o.has("fix") {
+                            // the output of the pass is walrus's own output too
+                            if let Some(first) = gc_out {
+                                match parse_with(&first, o.cfg, false, false) {
+                                    Err(pan) => rec.push_s("panic.gc-fix.parse", &pan),
+                                    Ok(Err(e)) => rec.push_s("err.gc-fix.parse", &e),
+                                    Ok(Ok(mut p3)) => {
+                                        emit_into(rec, "gc-fix", &mut p3.module);
+                                    }
+                                }
+                            }
                         }
                         if o.has("emit2") {
                             emit_into(rec, "gcemit2", &mut p2.module);
